@@ -1,0 +1,10 @@
+// Package simhook is the scheduling seam used by the deterministic simulator
+// that lives outside this repository (build tag "verif").
+//
+// Without the tag every function is an empty inlinable no-op and Enabled is a
+// false constant, so call sites guarded by "if simhook.Enabled" are removed by
+// the compiler: shipped behaviour and cost are unchanged.
+//
+// With the tag the functions forward to the Handler installed with Install;
+// while no handler is installed they are no-ops as well.
+package simhook
